@@ -22,7 +22,8 @@ Point(fam, src, kind, obs, field, rho) == [law |-> "point", fam |-> fam, scene |
                                            pt |-> [kind |-> kind, obs |-> obs, field |-> field, rho |-> rho]]
 PtOf(i) == [kind |-> i.pt.kind, src |-> i.scene[1], obs |-> i.pt.obs, field |-> i.pt.field, rho |-> i.pt.rho]
 Premise(i) == IF i.law = "flux" THEN FluxPremise(i.scene, i.ch, i.lo, i.hi, i.full)
-              ELSE IF i.law = "circ" THEN CircPremise(i.scene, i.ch, i.edges) ELSE PointPremise(PtOf(i))
+              ELSE IF i.law = "circ" THEN CircPremise(i.scene, i.ch, i.edges)
+              ELSE IF i.pt.kind = "harmonic" THEN HarmPremise(PtOf(i)) ELSE PointPremise(PtOf(i))
 Expected(i) == IF i.law = "circ" THEN ExpCirc(i.scene, i.ch, i.edges) ELSE 0
 ClassOf(i) == IF i.law = "point" THEN <<i.pt.kind>> ELSE IF i.law = "flux" THEN [k \in DOMAIN i.scene |-> CutClass(i.scene[k], i.ch, i.lo, i.hi, i.full)]
               ELSE [k \in DOMAIN i.scene |-> IF Lk(i.scene[k], i.ch, i.edges) # 0 THEN "linked"
@@ -31,8 +32,8 @@ Derived(i) == [faces |-> IF i.law = "flux" THEN Faces(i.ch, i.lo, i.hi, i.full) 
                brk |-> IF i.law = "flux" THEN CellBreaks(i.scene, i.ch, i.lo, i.hi) ELSE None3,
                ebrk |-> IF i.law = "circ" THEN LoopBreaks(i.scene, i.ch, i.edges) ELSE <<>>,
                cls |-> ClassOf(i),
-               norm |-> IF i.law = "point" THEN PointNorm(PtOf(i)) ELSE <<>>,
-               gross |-> IF i.law = "point" THEN PointGross(PtOf(i)) ELSE 0]
+               norm |-> IF i.law = "point" /\ i.pt.kind # "harmonic" THEN PointNorm(PtOf(i)) ELSE <<>>,
+               gross |-> IF i.law = "point" /\ i.pt.kind # "harmonic" THEN PointGross(PtOf(i)) ELSE 0]
 
 (* ------------------------------------------------------------------------------ building blocks *)
 Rx90 == <<<<1, 0, 0>>, <<0, 0, -1>>, <<0, 1, 0>>>>
@@ -73,7 +74,7 @@ TetChart(A, R, p, i0) ==          \* anchored at vertex i0, edges in right-hande
   LET v == TetV(A)
       oth == CHOOSE q \in {<<a, b, c>> : a \in 1..4, b \in 1..4, c \in 1..4} :
                /\ {q[1], q[2], q[3]} = (1..4) \ {i0}
-               /\ Det3(Sub3(v[q[1]], v[i0]), Sub3(v[q[2]], v[i0]), Sub3(v[q[3]], v[i0])) > 0
+               /\ SgnDet3(Sub3(v[q[1]], v[i0]), Sub3(v[q[2]], v[i0]), Sub3(v[q[3]], v[i0])) > 0
   IN Chart("aff", R, p, v[i0], <<Sub3(v[oth[1]], v[i0]), Sub3(v[oth[2]], v[i0]), Sub3(v[oth[3]], v[i0])>>, 12 * A)
 Dip(R, p, m) == Src("Dipole", R, p, <<>>, m, <<>>)
 Cir(A, R, p, I) == Src("Circle", R, p, <<4 * A>>, <<I>>, <<>>)
@@ -327,7 +328,65 @@ FarSrcs == {Cub(1, Rx90, <<1, 0, -1>>, P1), Mesh(1, IdM, Zero3, P2), Cyl(1, Ry90
 PtFar == {Point(Nm(s.cls, "far field", "k=" \o ToString(k)), s, "far", Add3(s.p, Off(q, k).r), f, Off(q, k).rho)
             : s \in FarSrcs, q \in Quads, k \in {150, 300, 1200, 3600}, f \in {"B", "H"}}
 C01Points == PtDipole \cup PtSphere \cup PtFar
-Candidates == IF Prop = "C14" THEN C14Flux \cup C14CircChart \cup CartLk \cup CartBig ELSE C01Cells \cup C01Points
+(* ============================================================ thin slabs next to faces, thin tubes next to axes (C14 and C01) *)
+(* Surface masks and special-case branches live within 1e-3 .. 1e-5 of a face / an axis.  A closed cell sees such a branch only if  *)
+(* ONE of its faces lies in the thin region: tiny cells (3 lattice units) straddling the face over the INTERIOR of a facet of a     *)
+(* body that is 1e3 .. 3e4 units large, and cells of width 1 hugging the symmetry axis of a source of radius 1e3 .. 1e4.           *)
+SlabA == IF Thorough THEN {500, 2500} ELSE {500}            \* tetrahedron edge 12 A: offsets 1.7e-4 and 3e-5 of the facet size
+Q4(s1, s2, w) == LET c == (s1 + s2) \div 2 + (s2 - s1) \div 4 IN <<c - w, c + 2 * w>>      \* quarter point: off the face diagonals of a box mesh
+SlabBoxPat(A) == LET S == CubS(A) IN       \* one cell over the interior of three faces (off the centre lines and off the diagonals)
+  {<<"face x=+a", <<Iv("hi", S[1][1], S[1][2], 1), Q4(S[2][1], S[2][2], 1), Iv("in", S[3][1], S[3][2], 1)>>>>,
+   <<"face y=-b", <<Q4(S[1][1], S[1][2], 1), Iv("lo", S[2][1], S[2][2], 1), Iv("in", S[3][1], S[3][2], 1)>>>>,
+   <<"face z=+c", <<Iv("in", S[1][1], S[1][2], 1), Q4(S[2][1], S[2][2], 1), Iv("hi", S[3][1], S[3][2], 1)>>>>}
+SlabBox == UNION {{NamedBox(Nm("Cuboid", "thin slab at " \o q[1], "across the face interior"), <<Cub(A, IdM, Zero3, P1)>>, Id0, q[2]) : q \in SlabBoxPat(A)} : A \in SlabA}
+      \cup UNION {{NamedBox(Nm("TriangularMesh", "thin slab at " \o q[1], "across the facet interior"), <<Mesh(A, IdM, Zero3, P1)>>, Id0, q[2]) : q \in SlabBoxPat(A)} : A \in SlabA}
+\* tetrahedron: over the interior (u = n/3) of the three faces through the anchor vertex; anchors 1 and 2 cover all four faces
+TetMid(A) == <<4 * A - 1, 4 * A + 2>>
+SlabTetra == UNION {UNION {{NamedBox(Nm("Tetrahedron", "thin slab at a facet", "across the facet interior"), <<Tet(A, IdM, Zero3, P1)>>, TetChart(A, IdM, Zero3, i0),
+                                     [k \in 1..3 |-> IF k = j THEN <<-2, 1>> ELSE TetMid(A)]) : j \in 1..3} : i0 \in {1, 2}} : A \in SlabA}
+SlabCurved ==
+  UNION {{CylCell(Nm("Cylinder", "thin slab at the hull", "across the hull"), <<Cyl(A, IdM, Zero3, P1)>>, CylChart(IdM, Zero3), <<2 * A - 1, 2 * A + 2>>, <<1, 3>>, <<A, A + 3>>),
+          CylCell(Nm("Cylinder", "thin slab at the base", "across the base"), <<Cyl(A, IdM, Zero3, P1)>>, CylChart(IdM, Zero3), <<A, A + 3>>, <<1, 3>>, <<3 * A - 1, 3 * A + 2>>),
+          SphCell(Nm("Sphere", "thin slab at the surface", "across the surface"), <<Sph(A, IdM, Zero3, P1)>>, SphChart(IdM, Zero3), <<2 * A - 1, 2 * A + 2>>, <<3, 5>>, <<1, 3>>)}
+         : A \in {500, 5000}}
+  \cup UNION {{CylCell(Nm("CylinderSegment", "thin slab at the outer hull", "across the hull"), <<Seg(<<A, 3 * A, 4 * A, 0, 6>>, IdM, Zero3, P1)>>, CylChart(IdM, Zero3), <<3 * A - 1, 3 * A + 2>>, <<2, 4>>, <<A, A + 3>>),
+                CylCell(Nm("CylinderSegment", "thin slab at the base", "across the base"), <<Seg(<<A, 3 * A, 4 * A, 0, 6>>, IdM, Zero3, P1)>>, CylChart(IdM, Zero3), <<2 * A, 2 * A + 3>>, <<2, 4>>, <<2 * A - 1, 2 * A + 2>>)}
+               : A \in IF Thorough THEN {500, 5000} ELSE {500}}
+\* thin tubes next to the symmetry axis (cylindrical chart in the source frame): rod around the axis, wedge from the axis, first ring next to it
+TubeCells(name, src, zs) ==
+  UNION {{CylCell(Nm(name, "thin tube at the axis", "rod around the axis"), <<src>>, CylChart(src.R, src.p), <<0, 1>>, <<0, 24>>, <<z, z + 3>>),
+          CylCell(Nm(name, "thin tube at the axis", "wedge from the axis"), <<src>>, CylChart(src.R, src.p), <<0, 1>>, <<1, 4>>, <<z, z + 3>>),
+          CylCell(Nm(name, "thin tube at the axis", "across the tube"), <<src>>, CylChart(src.R, src.p), <<0, 3>>, <<-5, 2>>, <<z, z + 3>>),
+          CylCell(Nm(name, "thin tube at the axis", "next to the tube"), <<src>>, CylChart(src.R, src.p), <<1, 4>>, <<1, 4>>, <<z, z + 3>>)} : z \in zs}
+AxisTubes == UNION {TubeCells("Circle", Cir(A, IdM, Zero3, 2), {A, -3 * A}) \cup TubeCells("Circle", Cir(A, Rx90, <<3, -1, 2>>, -1), {2 * A})
+                    \cup TubeCells("Cylinder", Cyl(A, IdM, Zero3, P1), {-1, 4 * A})
+                    \cup TubeCells("CylinderSegment", Seg(<<A, 3 * A, 4 * A, 0, 6>>, IdM, Zero3, P1), {-1, 3 * A})
+                    \cup TubeCells("Dipole", Dip(Rz90, <<1, 2, 3>>, P1), {A, -2 * A})
+                    \cup TubeCells("Sphere", Sph(A, Ry90, Zero3, P1), {3 * A}) : A \in {500, 5000}}
+ThinCells == SlabBox \cup SlabTetra \cup SlabCurved \cup AxisTubes
+
+(* ============================================================ mean-value law at points ON the special sets (C01) *)
+\* points exactly on an axis / centre line / switch plane / segment extension line, in free space, with their six lattice neighbours
+Harm(name, surf, src, loc, h) == Point(Nm(name, surf, "mean value, h=" \o ToString(h)), src, "harmonic", Add3(src.p, MulMV(src.R, loc)), "B", h)
+HarmH(i) == [i EXCEPT !.pt.field = "H"]
+HarmPoses == {<<IdM, Zero3>>, <<Rx90, <<2, -1, 3>>>>, <<Rz90, <<-4, 0, 1>>>>}
+HarmB ==
+  UNION {UNION {{Harm("CylinderSegment", "axis of a solid wedge (r1 = 0) beyond the faces", Seg(<<0, 2 * A, 2 * A, -3, 9>>, g[1], g[2], pol), <<0, 0, z>>, 1) : z \in {A + 200, -A - 300}, pol \in {P1, P2}}
+           \cup {Harm("CylinderSegment", "axis of a solid wedge (r1 = 0) beyond the faces", Seg(<<0, 3 * A, 2 * A, 1, 6>>, g[1], g[2], P1), <<0, 0, z>>, 1) : z \in {A + 250}}
+           \cup {Harm("CylinderSegment", "axis (r1 > 0) beyond the faces", Seg(<<A, 3 * A, 4 * A, 0, 6>>, g[1], g[2], P1), <<0, 0, z>>, 1) : z \in {2 * A + 200}}
+           \cup {Harm("Cylinder", "axis beyond the bases", Cyl(A, g[1], g[2], P1), <<0, 0, z>>, 1) : z \in {3 * A + 200}}
+           \cup {Harm("Cylinder", "hull extension r = r0", Cyl(A, g[1], g[2], P1), <<2 * A, 0, z>>, 1) : z \in {3 * A + 200}}
+           \cup {Harm("Circle", "axis r = 0", Cir(A, g[1], g[2], 2), <<0, 0, z>>, 1) : z \in {200, -A}}
+           \cup {Harm("Circle", "loop plane z = 0 outside", Cir(A, g[1], g[2], 2), <<2 * A + 250, 0, 0>>, 1)}
+           \cup {Harm("Cuboid", "centre line / octant planes", Cub(A, g[1], g[2], P1), loc, 1) : loc \in {<<0, 0, 4 * A + 200>>, <<2 * A + 200, 0, A>>, <<2 * A + 250, 3 * A, 4 * A>>}}
+           \cup {Harm("TriangularMesh", "centre line / facet plane extension", Mesh(A, g[1], g[2], P2), loc, 1) : loc \in {<<0, 0, 4 * A + 200>>, <<2 * A + 250, 3 * A, 4 * A>>}}
+           \cup {Harm("Tetrahedron", "face plane and edge extension", Tet(A, g[1], g[2], P1), loc, 1) : loc \in {<<12 * A + 200, 0, 0>>, <<-200, 5 * A, 0>>}}
+           \cup {Harm("Sphere", "centre line", Sph(A, g[1], g[2], P1), <<0, 0, 2 * A + 200>>, 1)}
+           \cup {Harm("Dipole", "moment axis / coordinate axis", Dip(g[1], g[2], P3), loc, 1) : loc \in {<<0, 0, 200>>, <<250, 0, 0>>}}
+           \cup {Harm("Polyline", "segment extension line", Pol(SquareV(A), g[1], g[2], 3), <<2 * A + 200, 2 * A, 0>>, 1)}
+           : g \in HarmPoses} : A \in IF Thorough THEN {100, 500} ELSE {500}}
+HarmPts == HarmB \cup {HarmH(i) : i \in HarmB}
+Candidates == IF Prop = "C14" THEN C14Flux \cup C14CircChart \cup CartLk \cup CartBig \cup ThinCells ELSE C01Cells \cup C01Points \cup ThinCells \cup HarmPts
 \* Conditioning of the measurement (not part of the premise; it only selects which instances are worth integrating with a
 \* fixed-order rule): the cell is not a thin slab, and a cell that touches a body is not much larger than the body
 \* (otherwise single quadrature pieces would span decades of the field's variation and the instance would be unmeasurable).
